@@ -271,6 +271,25 @@ func (m *modeler) mangleOne(sp ManglerSpec, f *mfield, top bool) ([]*mfield, err
 				}
 			}
 		}
+		// nor is any other tag that names the field for some consumer (a
+		// json / yaml / toml tag next to the dials tag, hand-written or
+		// copied there by an earlier mangler): both fields would answer to
+		// one key.  Only the mangler's own tags, their alias tags and
+		// dialsdesc survive on the copy (/repo d229351).
+		managed := map[string]bool{"dialsdesc": true}
+		for _, tag := range sp.Tags {
+			managed[tag] = true
+			managed[tag+"alias"] = true
+		}
+		for key, tv := range cp.tags {
+			if managed[key] {
+				continue
+			}
+			if tv.known && (namePart(tv.val) == "" || namePart(tv.val) == "-") {
+				continue
+			}
+			delete(cp.tags, key)
+		}
 		for tag, av := range aliasVals {
 			cp.tags[tag] = tagVal{val: namePart(av.val), known: av.known, words: av.words, wk: av.wk}
 		}
